@@ -88,7 +88,7 @@ m("C25", "return-0-on-error", "vc2_conformance/scripts/vc2_bitstream_validator.p
 def run_one(mut, prop, tier, seed):
     d = tempfile.mkdtemp(prefix="mut-", dir="/tmp")
     try:
-        for sub in ("vc2_conformance", "tests"):
+        for sub in ("vc2_conformance", "tests", "docs"):
             shutil.copytree(os.path.join("/repo", sub), os.path.join(d, sub), ignore=shutil.ignore_patterns("__pycache__"))
         for file, old, new, count in mut["edits"]:
             p = os.path.join(d, file)
